@@ -1096,7 +1096,7 @@ def hist_real_case(s, with_ttp):
             dict(q=0, d='G', sel=None, col=0, value=float(10 ** r.uniform(-3.5, -3.0)), tk='vf>late')]
     if with_ttp:      # the model is used for an ordinary run with conditions, then handed to a calculator, then used again
         ops = gen_ops(r, len(pool), int(r.integers(2, 5)), False, lambda r_: float(r_.choice([150.0, 300.0])), max_solves=1)
-        ops = [o for o in ops if o[0] != 'reset']
+        ops = [('add', int(r.integers(0, len(pool))), bool(r.random() < 0.6))] + [o for o in ops if o[0] != 'reset']
         ops += [('ttp', [0, 4] if r.random() < 0.5 else [2, 0, 4], 2, 1000.0)]
         ops += gen_ops(r, len(pool), int(r.integers(1, 4)), False, lambda r_: float(r_.choice([150.0, 300.0])), max_solves=1)
     else:
@@ -1451,7 +1451,7 @@ def corr(ctx, oracle_only=False, scale=1):
     guard(res, 'part-obj', {}, part_obj, ctx, res, ctx.n(1200, 30000) * scale, oracle_only)
     guard(res, 'part-synth', {}, part_synth, ctx, res, ctx.n(250, 6000) * scale, oracle_only)
     guard(res, 'part-ttp-synth', {}, part_ttp_synth, ctx, res, ctx.n(40, 800) * scale, oracle_only)
-    guard(res, 'part-hist', {}, part_hist, ctx, res, ctx.n(200, 5000) * scale, oracle_only,
+    guard(res, 'part-hist', {}, part_hist, ctx, res, ctx.n(120, 2500) * scale, oracle_only,
           [False] * 6 + [True] if ctx.thorough else [False])
     if ctx.thorough:
         guard(res, 'part-real', {}, part_real, ctx, res, ['all-and', 'or-mix', 'never', 'never'] + ['any'] * 10 + ['or-mix'] * 4, oracle_only)
